@@ -17,3 +17,5 @@ package config
 //@   loop#2 invariant forall k int :: 0 <= k && k < len(res) ==> has(uniq, res[k].Name) && res[k] == uniq[res[k].Name]
 //@   loop#2 invariant cap(res) == 0 || base(res) != base(conf.Integrations)
 //@   loop#2 invariant forall j int :: 0 <= j && j < len(conf.Integrations) ==> conf.Integrations[j] == old(conf.Integrations[j])
+//@   loop#2 invariant forall x string :: rangevisited[x] && has(uniq, x) ==> (exists k int witness len(res) - 1 :: 0 <= k && k < len(res) && res[k].Name == x)
+//@   ensures [file-complete] result1 == nil ==> (forall j int :: 0 <= j && j < len(conf.Integrations) ==> (exists k int :: 0 <= k && k < len(result0) && result0[k].Name == conf.Integrations[j].Name))
